@@ -329,7 +329,7 @@ func (e *env) run(kind string) (bool, string) {
 		}
 		e.inject(message.Acknowledgement, codes.Content, q2.MID, q2.Token, message.Options{{ID: message.Block2, Value: blk(0, 1, false)}}, []byte{2, 2, 2, 2})
 		return c.wait(), outcome(c)
-	case "obsOK", "obsFail", "obsSilentCancel", "obsAckedCancel":
+	case "obsOK", "obsFail", "obsSilentCancel", "obsAckedCancel", "obsNoObs205", "obsNoObs203":
 		var o interface {
 			Cancel(ctx context.Context, opts ...message.Option) error
 		}
@@ -352,6 +352,10 @@ func (e *env) run(kind string) (bool, string) {
 		switch kind {
 		case "obsOK":
 			e.inject(message.Acknowledgement, codes.Content, q.MID, q.Token, message.Options{{ID: message.Observe, Value: []byte{1}}}, []byte("v"))
+		case "obsNoObs205": // the peer does not support observing: a plain 2.05 / 2.03 without the Observe option - nothing is registered
+			e.inject(message.Acknowledgement, codes.Content, q.MID, q.Token, nil, []byte("v"))
+		case "obsNoObs203":
+			e.inject(message.Acknowledgement, codes.Valid, q.MID, q.Token, nil, []byte("v"))
 		case "obsFail":
 			e.inject(message.Acknowledgement, codes.NotFound, q.MID, q.Token, nil, nil)
 		case "obsAckedCancel": // acknowledged, never answered: the caller gives up while Observe() waits for the first answer
